@@ -1,6 +1,8 @@
 (* C12 -- Confidence bands follow their definitions, bracket the winner, only add bands.
    Statements only; proofs are `exact <lemma>` from Proofs/ConfidenceP.v.
-   Model: Model/Confidence.v (tied to the code by the correspondence check harness/props/c12.py);
+   Model: Model/Confidence.v (tied to the code by the correspondence check harness/props/c12.py and, for the four
+   numba kernels and normalize_with_percentile, by T-gen: Gen/ConfKernels.v regenerated from the Python source at
+   every run and proved equal to the model: second half of this file, theorems C12_gen_...);
    Spec : Spec/Confidence.v.  Costs are [option Q] (None = NaN); the eta samples, the threshold,
    the disparity axis, the percentile are arbitrary data: every statement is for ALL of them,
    all curve lengths, all volumes. *)
